@@ -200,6 +200,17 @@ theorem C06_sendRead_own_or_fallback (sr : Bool) (s : LSock) (al : Aligned s) (t
   · intro t h; rw [e, h]
   · intro h; rw [e]; cases kb <;> simp [KB.own] at h ⊢
 
+/-- C09, cost of the repaired loop over a whole history on one socket: n datagrams written cost
+    at most 2·n `ReadTXTimestamp` calls (plus one per timestamp still under way at the start) —
+    one per datagram and at most one more for each timestamp that arrived late. Each call is one
+    poll of at most 1 ms; none of them can block. -/
+theorem C09_reads_amortised (sr : Bool) (kbs : List KB) (s : LSock) (al : Aligned s) (hq : s.queue = []) :
+    (runSock sr s kbs).2 ≤ 2 * kbs.length + s.pending.length := by
+  have := runSock_reads sr kbs s al hq
+  omega
+
+example : (runSock true LSock.init [.late 0 5, .late 0 6, .intime 7, .never, .intime 9]).2 = 7 := by decide
+
 /-! ### all histories -/
 
 /-- what is invariant in a listener process: every socket aligned, the store well-formed -/
